@@ -690,7 +690,12 @@ func (ls *LState) where(level int, skipg bool) string {
 	}
 	line := ""
 	if proto != nil {
-		line = fmt.Sprintf("%v:", proto.DbgSourcePositions[cf.Pc-1])
+		if cf.Pc > 0 {
+			line = fmt.Sprintf("%v:", proto.DbgSourcePositions[cf.Pc-1])
+		} else {
+			// the function has been entered but has not executed an instruction yet
+			line = fmt.Sprintf("%v:", proto.LineDefined)
+		}
 	}
 	return fmt.Sprintf("%v:%v", sourcename, line)
 }
